@@ -164,7 +164,8 @@ def run(ctx: Ctx) -> Result:
     try:
         def cases():
             if ctx.replay is not None:
-                yield Case.from_json(ctx.replay['replay'])
+                if 'names' not in ctx.replay['replay']:
+                    yield Case.from_json(ctx.replay['replay'])
                 return
             P = gp.pattern
             loopy = [('ph', [P('p', ['0000', '0100', '0001', '0000'], [['eq:0'], ['eq:1'], ['eq:2'], ['eq:3']]),
@@ -221,6 +222,15 @@ def run(ctx: Ctx) -> Result:
         run_cases(ctx, cases(), res, per_case=per_case, use_ref=False)
     finally:
         RealDecider.__init__ = orig_init
+    # "announced exactly once by the instance that finished it" when the SAME run is finished by a peer and locally at the same
+    # moment: the peer's notification is applied by the distributed thread while the engine thread processes the datum
+    # that finishes the local copy (real engines + replication, the engine's cycle injected where the distributed thread
+    # reaches for the decider's lock)
+    if ctx.replay is None or 'names' in ctx.replay.get('replay', {}):
+        from harness import gen_cluster as gc
+        from harness.props.c04 import run_scenarios
+        scs = [ctx.replay['replay']] if ctx.replay is not None else gc.racing_engine_family()
+        run_scenarios(ctx, scs, res, {'completed-twice', 'finished-run-resurrected', 'action-executed-twice'})
     return res
 
 
